@@ -13,3 +13,5 @@ import OmplModel.Props.C03
 #print axioms OmplModel.Props.C03.crrt_core_lawful
 #print axioms OmplModel.Props.C03.alloc_balanced_control
 #print axioms OmplModel.Props.C03.alloc_balanced_control_after_clear
+#print axioms OmplModel.Props.C03.clearQuery_forgets_query_keeps_roadmap
+#print axioms OmplModel.Props.C03.setProblemDefinition_rereads_query
